@@ -243,6 +243,16 @@ func goTLPqa(a []string) (ans string) {
 	return "ok"
 }
 
+// retrySlow: a deadline verdict is confirmed by two more measurements (the machine may be busy); every other answer
+// is final
+func retrySlow(f func() string) string {
+	r := f()
+	for try := 0; try < 2 && len(r) >= 9 && r[:9] == "FAIL slow"; try++ {
+		r = f()
+	}
+	return r
+}
+
 // noPanic turns an executor into a direct oracle: whatever it answers, it must not panic
 func noPanic(f h.ExecFn) h.ExecFn {
 	return func(a []string) (ans string) {
